@@ -7,7 +7,8 @@ value loaded from *dmaxp at entry.  Decided:
  Z  every store into the string writes the constant 0;
  P  every path that returns a possibly non-null token has stored *ptr;
  Q  where the continuation is set behind the scan cursor (cursor + 1), the element at the cursor was overwritten with 0 by a dominating store
-    (a nulled delimiter) -- the continuation never steps over the string's own terminator.
+    (a nulled delimiter) -- the continuation never steps over the string's own terminator;
+ E  every comparison of a string character with a delimiter character uses the same width and extension on both sides.
 NOT decided: that the call sequence yields each maximal delimiter-free substring exactly once (a property of histories and contents), and
 that all STRTOK_DELIM_MAX_LEN delimiters take part in the comparison."""
 import os
@@ -177,7 +178,33 @@ def analyse(ck, prog, name, unit, report):
             report("C14:continuation-skips-element:%s:+%d" % (base, step // unit), "Q-continuation-behind-nulled-delimiter", fn.loc(i),
                    "%s: *ptr is set %d element(s) behind the scan cursor although the element at the cursor was not overwritten with 0 on this path: if it is the string's terminator "
                    "the next call scans (and modifies) what follows the string" % (base, step // unit))
-    return dict(bounds_obligations=nB, continuation_pairs=nT, delimiter_limit_exits=nD, stores_into_string=nZ, token_returns=nP, continuation_steps=nQ)
+    # E: every comparison of a string character with a delimiter character treats both alike (same width, same extension): a sign-extended
+    #    byte never equals a zero-extended one for values >= 0x80, so such a comparison silently ignores high-bit delimiters
+    nE = 0
+    ddel = derive(fn, {fn.pnames["delim"]["id"]: "d"}) if "delim" in fn.pnames else {}
+    for i in fn.insts():
+        if i["op"] != "icmp" or i["pred"] not in ("eq", "ne"):
+            continue
+        shape = []
+        for o in i["ops"]:
+            d = fn.defs.get(o.get("id")) if o.get("k") == "v" else None
+            ext = None
+            while d is not None and d["op"] in ("sext", "zext"):
+                ext = d["op"]
+                d = fn.defs.get(d["ops"][0].get("id")) if d["ops"][0].get("k") == "v" else None
+            if d is not None and d["op"] == "load":
+                src = "string" if labels_of(d["ops"][0], dstr, None) else "delim" if labels_of(d["ops"][0], ddel, None) else None
+                shape.append((src, ext, d.get("size")))
+        if len(shape) == 2 and {shape[0][0], shape[1][0]} == {"string", "delim"}:
+            nE += 1
+            if shape[0][1:] != shape[1][1:]:
+                report("C14:delimiter-compare-mixed-extension:%s" % base, "E-delimiter-compared-like-with-like", fn.loc(i),
+                       "%s: a string character (%s, %s bytes) is compared with a delimiter character (%s, %s bytes): for values >= 0x80 the two never compare equal, "
+                       "so such a delimiter neither ends a token nor is overwritten" % (base, *[x for sh in sorted(shape) for x in (sh[1] or "no extension", sh[2])][2:4],
+                                                                                         *[x for sh in sorted(shape) for x in (sh[1] or "no extension", sh[2])][0:2]))
+    if nE < 2:
+        ck.fail_broken("%s: fewer than 2 string-vs-delimiter character comparisons found (%d)" % (name, nE))
+    return dict(bounds_obligations=nB, continuation_pairs=nT, delimiter_limit_exits=nD, stores_into_string=nZ, token_returns=nP, continuation_steps=nQ, delimiter_comparisons=nE)
 
 
 def run(ck):
